@@ -342,6 +342,24 @@ def check_property(pid, tier, seed, replay=None):
             if missing:
                 proof_problems.append("theorems %s not found in %s" % (missing, emod))
             extra_thms[emod] = pick
+        # 2c. generated ties: theorem modules about Lean text translated from C functions on this run.  They are obligations
+        # whenever the translator accepted the current source; when it refused (a construct outside its subset) the tie
+        # degrades to the differential correspondence of the hand-written model and the module is not built
+        generated_tie = {}
+        for g in P.get("generated", []):
+            why = (gen or {}).get("failed", {}).get(g["section"]) if gen else "translator did not run"
+            if why:
+                generated_tie[g["module"]] = "degraded to the hand model + correspondence: the translator refused the current source (%s)" % why[:300]
+                notes.append("generated tie %s: %s" % (g["module"], generated_tie[g["module"]]))
+                continue
+            okg, outg, errsg = lake_build([g["module"]])
+            if not okg:
+                proof_problems.append("lake build %s failed (the Lean text generated from the C source no longer refines the model): %s" % (g["module"], "; ".join(errsg[:6])[:1500]))
+                ok = False
+                generated_tie[g["module"]] = "BROKEN: does not build"
+            else:
+                generated_tie[g["module"]] = "checked"
+                extra_thms[g["module"]] = theorems_of(g["module"])
         # 3. audit
         deps = sorted(set(module_deps(mod)).union(*[module_deps(m) for m in extra_thms] or [set()]))
         files = [os.path.join(LEAN, *m.split(".")) + ".lean" for m in deps]
@@ -542,6 +560,7 @@ def check_property(pid, tier, seed, replay=None):
             "comparison_projection": {d["name"]: (d.get("keep") or "all observation tokens") for d in P["domains"]},
             "correspondence_differences": len(diffs), "judge_rejections": len(rejects), "faults": len(faults),
             "known_findings_reproduced": sorted(known_hits), "broken_obligations": proof_problems, "notes": notes,
+            "generated_tie": generated_tie,
             "exhaustive": False,
             "configurations": cfgs,
         },
